@@ -80,6 +80,11 @@ def gen_scenario(seed, index, faulty):
         if rng.random() < 0.1 and not c.get("kw"):
             c["kind"] = "resolve"
         ops.append(c)
+    if rng.random() < 0.06:
+        # a burst of first-time argument types (fresh subclasses) somewhere in the history: a cache
+        # that evicts must not change what later calls do
+        ops.insert(rng.randrange(len(ops) + 1), {"flood": rng.choice([60, 150, 300]),
+                                                 "base": rng.randrange(len(corpus))})
     scen = {"label": f"seed:{s}", "spec": spec, "regs": regs, "corpus": corpus, "history": ops,
             "shape": shape, "fault": None}
     if rng.random() < 0.3 and not any(m["body"][0] == "fnext" for m in spec["methods"].values()):
@@ -91,7 +96,7 @@ def gen_scenario(seed, index, faulty):
             if rng.random() < 0.4:
                 c["on"] = "g"
     if faulty:
-        at = rng.randrange(len(ops))
+        at = rng.choice([j for j, o in enumerate(ops) if "flood" not in o])
         kind = weighted(rng, [("crash", 6), ("hook", 4)])
         if not spec["hooks"] and not spec["deps"]:
             kind = "crash"
@@ -154,6 +159,20 @@ def execute(scen):
     fired = False
     prev_state = cache_state(h)
     for i, c in enumerate(scen["history"]):
+        if "flood" in c:
+            b = scen["corpus"][c["base"]]
+            if b.get("args") and b["args"][0][0] == "n" and not b.get("kw") \
+                    and not spec["meta"].get("self"):
+                base = getattr(h.w.mod, b["args"][0][1])
+                rest = [h.w.value(v) for v in b["args"][1:]]
+                for q in range(c["flood"]):
+                    try:
+                        h.ov.dispatch(type(f"Flood{i}_{q}", (base,), {})(0, []), *rest)
+                    except Exception:  # noqa: BLE001
+                        pass
+                h.w.log.take()
+            trace.append(["flood"])
+            continue
         target = "g" if (second and c.get("on") == "g") else "f"
         tregs = second["regs"] if target == "g" else regs
         if f is not None and i == f["at"]:
